@@ -521,7 +521,7 @@ func caseVariant(s Src, lab string) string {
 
 // ---------------- blocks ----------------
 
-var labelNLCount, nearMissCount, longTextCount int
+var labelNLCount, nearMissCount, longTextCount, emptyItemCount int
 var avoidWSOnly = true
 var excludedF19 int
 
@@ -809,6 +809,11 @@ func (g *G) list(depth int) List {
 	n := 1 + g.s.Intn(3)
 	l.Tight = coin(g.s, 1, 2)
 	for i := 0; i < n; i++ {
+		if coin(g.s, 1, 8) {
+			l.Items = append(l.Items, nil) // an empty item: the marker alone on its line
+			emptyItemCount++
+			continue
+		}
 		k := 1 + g.s.Intn(2)
 		l.Items = append(l.Items, g.blocks(depth, k, l.Tight, true, 0))
 	}
